@@ -167,7 +167,9 @@ def gen_text(rng, max_len=40):
 def gen_ctype(rng):
     t = rng.choice(['text/plain', 'application/octet-stream', 'image/png', 'application/x-www-form-urlencoded', 'a/b'])
     if rng.random() < 0.3:
-        t += rng.choice(['; charset=utf-8', '; x=y', '; charset="utf-8"'])
+        # (parameters of the part's own media type, incl. ones that look like Content-Disposition parameters)
+        t += rng.choice(['; charset=utf-8', '; x=y', '; charset="utf-8"', '; name="other name.pdf"', '; filename=other.bin',
+                         '; name=x; filename="y z"'])
     return t
 
 
